@@ -11,6 +11,8 @@ import (
 	"testing/synctest"
 	"time"
 
+	"pgregory.net/rapid"
+
 	"verifharness/kit"
 )
 
@@ -20,12 +22,14 @@ type c02hCase struct {
 	Order   []int    `json:"order"`   // 0 = releaser, 1 = canceller
 	Outcome int      `json:"outcome"`
 	Yields  []uint8  `json:"yields"`
+	Par     bool     `json:"par,omitempty"`
 }
 
 func runC02H(t *testing.T, c c02hCase) kit.Outcome {
 	return bubble(t, func() kit.Outcome {
 		t0 := time.Now()
 		sc := newSched(c.Yields)
+		sc.spin = c.Par
 		sc.arm(false)
 		st, err := buildStack(c.Stack, nil, sc, t0)
 		if err != nil {
@@ -47,8 +51,12 @@ func runC02H(t *testing.T, c c02hCase) kit.Outcome {
 			return kit.Outcome{Harness: "set-up failed"}
 		}
 		if c.GiveUp == "timeout" {
-			// arrive at the very instant the waiter's backlog timer fires
-			time.Sleep(c.Stack.effTimeout() - w.now() + waiter.Arrived)
+			// arrive at the very instant the waiter's backlog timer (or the limiter's deadline) fires
+			if c.Stack.Kind == "deadline" {
+				time.Sleep(time.Duration(c.Stack.DeadlineMs)*time.Millisecond - w.now())
+			} else {
+				time.Sleep(c.Stack.effTimeout() - w.now() + waiter.Arrived)
+			}
 		}
 		sc.arm(true)
 		release := func() {
@@ -73,6 +81,8 @@ func runC02H(t *testing.T, c c02hCase) kit.Outcome {
 		snap := w.snapshot()[1]
 		var viol *kit.Outcome
 		switch {
+		case !snap.Done && c.Stack.Kind == "blocking" && c.GiveUp == "timeout":
+			// the blocking limiter's timer is only a retry timer: still waiting is fine
 		case !snap.Done:
 			o := kit.Viol(kind+":waiter-stuck", "the waiter neither got the token nor returned from its give-up; points %v", sc.Trace)
 			viol = &o
@@ -101,9 +111,36 @@ func runC02H(t *testing.T, c c02hCase) kit.Outcome {
 		sawGiveUp, sawHandOff := false, false
 		for _, p := range sc.Trace {
 			sawGiveUp = sawGiveUp || p == "queue.giveup"
-			sawHandOff = sawHandOff || p == "queue.unblock.acquired"
+			sawHandOff = sawHandOff || p == "queue.unblock.acquired" || p == "inner.completed"
+			sawGiveUp = sawGiveUp || c.Stack.Kind != "queue"
 		}
 		return kit.Outcome{NonTrivial: sawGiveUp && sawHandOff, Labels: []string{"kind:" + kind, fmt.Sprintf("waiter-granted:%v", snap.OK)}}
+	})
+}
+
+// The same scenarios with real threads inside the bubble (all cores): which of two events due at the
+// same virtual instant runs first is then decided by the runtime, e.g. whether a waiter woken at its
+// deadline sees the release or its timer first.
+func TestC02_handoff_parallel(t *testing.T) {
+	kit.RequireMode(t, "std")
+	stacks := []StackCfg{
+		{Kind: "queue", Ordering: "fifo", Backlog: 2, TimeoutMs: 20},
+		{Kind: "queue", Ordering: "lifo", Backlog: 2, TimeoutMs: 20},
+		{Kind: "deadline", DeadlineMs: 20},
+		{Kind: "blocking", TimeoutMs: 20},
+	}
+	kit.Check(t, kit.Prop[c02hCase]{
+		ID: "C02", Quick: 4000, Thor: 200_000,
+		Rule: "the hand-off-vs-give-up scenarios of TestC02_handoff_enum_Coop with real parallelism inside the bubble (spins at the schedule points); non-trivial by the same rule",
+		Gen: func(t *rapid.T) c02hCase {
+			stk := rapid.SampledFrom(stacks).Draw(t, "stack")
+			give := rapid.SampledFrom([]string{"cancel", "timeout", "timeout"}).Draw(t, "give")
+			stk.Strategy, stk.Limit, stk.Inject = rapid.SampledFrom([]string{"simple", "precise"}).Draw(t, "strategy"), 1, true
+			stk.Evict = give == "cancel"
+			return c02hCase{Stack: stk, GiveUp: give, Order: rapid.Permutation([]int{0, 1}).Draw(t, "order"), Outcome: rapid.IntRange(0, 2).Draw(t, "outcome"),
+				Yields: rapid.SliceOfN(rapid.SampledFrom([]uint8{0, 0, 1, 2, 5}), 0, 10).Draw(t, "yields"), Par: true}
+		},
+		Run: runC02H, NoShrink: true,
 	})
 }
 
@@ -113,7 +150,7 @@ func TestC02_handoff_enum_Coop(t *testing.T) {
 		kit.Check(t, kit.Prop[c02hCase]{ID: "C02", Run: runC02H})
 		return
 	}
-	d := kit.NewDirect[c02hCase](t, "C02", "exhaustive: queue limiter (FIFO/LIFO) x give-up kind (cancel with eviction / backlog timer at the same instant) x spawn order x completion outcome x yields in {0,1,3}^k (k=6, thorough 8) at the schedule points; non-trivial = both the give-up and the hand-off were in progress")
+	d := kit.NewDirect[c02hCase](t, "C02", "exhaustive: queue (FIFO/LIFO), deadline and blocking limiter x give-up kind (cancel with eviction / backlog timer at the same instant) x spawn order x completion outcome x yields in {0,1,3}^k (k=6, thorough 8) at the schedule points; non-trivial = both the give-up and the hand-off were in progress")
 	k := 6
 	if kit.Thorough() {
 		k = 8
@@ -123,7 +160,13 @@ func TestC02_handoff_enum_Coop(t *testing.T) {
 	for i := 0; i < k; i++ {
 		total *= len(vals)
 	}
-	for _, ord := range []string{"fifo", "lifo"} {
+	stacks := []StackCfg{
+		{Kind: "queue", Ordering: "fifo", Backlog: 2, TimeoutMs: 20},
+		{Kind: "queue", Ordering: "lifo", Backlog: 2, TimeoutMs: 20},
+		{Kind: "deadline", DeadlineMs: 20},
+		{Kind: "blocking", TimeoutMs: 20},
+	}
+	for _, base := range stacks {
 		for _, give := range []string{"cancel", "timeout"} {
 			for _, order := range [][]int{{0, 1}, {1, 0}} {
 				for code := kit.Shard; code < total; code += kit.Shards {
@@ -133,8 +176,10 @@ func TestC02_handoff_enum_Coop(t *testing.T) {
 						ys[i] = vals[x%len(vals)]
 						x /= len(vals)
 					}
-					c := c02hCase{Stack: StackCfg{Kind: "queue", Strategy: "simple", Limit: 1, Ordering: ord, Backlog: 2, TimeoutMs: 20, Evict: give == "cancel", Inject: true},
-						GiveUp: give, Order: order, Outcome: code % 3, Yields: ys}
+					stk := base
+					stk.Strategy, stk.Limit, stk.Inject = "simple", 1, true
+					stk.Evict = give == "cancel"
+					c := c02hCase{Stack: stk, GiveUp: give, Order: order, Outcome: code % 3, Yields: ys}
 					stop := kit.Watch("C02", t.Name(), c)
 					o := runC02H(t, c)
 					stop()
